@@ -732,6 +732,9 @@ func (v *VMValue) ReadNativeObjectData() (*NativeObjectData, bool) {
 	return nil, false
 }
 
+// maxStringLength 拼接/模板得到的字符串的长度上限(字节)
+const maxStringLength = 1 << 20
+
 func (v *VMValue) OpAdd(ctx *Context, v2 *VMValue) *VMValue {
 	switch v.TypeId {
 	case VMTypeInt:
@@ -755,8 +758,13 @@ func (v *VMValue) OpAdd(ctx *Context, v2 *VMValue) *VMValue {
 	case VMTypeString:
 		switch v2.TypeId {
 		case VMTypeString:
-			val := v.Value.(string) + v2.Value.(string)
-			return NewStrVal(val)
+			s1, s2 := v.Value.(string), v2.Value.(string)
+			if len(s1)+len(s2) > maxStringLength {
+				// 与数组的长度上限同理: s = s + s 每次翻倍，少量指令即可耗尽内存
+				ctx.Error = errors.New("不能一次性创建过长的字符串")
+				return nil
+			}
+			return NewStrVal(s1 + s2)
 		}
 	case VMTypeArray:
 		switch v2.TypeId {
